@@ -56,6 +56,10 @@ CLAIMED = {
  "C08": ("proof", "Premises proved in Lean: C08_no_ub (UB-freedom theorems of C07: a UB-free call has one value for every conforming compiler and is a constant expression), C08_shl_cxx20 (C++17 value of signed << equals the C++20 value), abacus sqrt = floor sqrt for all inputs (C13). "
          "PARTIAL: the quantifier over compilers/levels/standards/evaluation time is outside Lean and is SAMPLED: value legs (quick: g++ c++17 -O2, clang++ c++20 -O2, sanitizer, abacus; thorough: 2 compilers x 4 levels x 3 standards x abacus) compared with the one model, "
          "and the constant-evaluation leg (350-4000 static_asserts derived from the model compiled under g++/clang++ x c++17+abacus/c++20/c++2b). |abacus - std::sqrt| <= 1 is stated (C08_sqrt_algos_full) and proved on kernel-evaluated sample points only.", "UB-freedom theorems + configuration matrix correspondence + constant-evaluation leg"),
+ "C11": ("proof", "C11_atan for EVERY finite argument (all 2^64-3 raw values, by analytic composition, not enumeration): |atan(v) - Real.arctan| <= 5e-5, atan(-v) = -atan(v), |atan v| <= fixpidiv2; "
+         "C11_atan2 for every pair with |y| < 2^31 and any finite x: within 8e-5 of the true angle in (-pi, pi], sign, axis values, origin -> NaN. Ingredients: Real.arctan_add split, |arctan a - arctan b| <= |a-b| (mean value), "
+         "integer bracket of the truncated kernel argument (omega with the literal segment constants), kernel-checked enumeration (28 chunks) of the polynomial kernel at all 28 672 arguments against Real.arctan via sin/cos enclosures incl. monotone unit steps, the four segment constants, the clamp. "
+         "PARTIAL: the 2-ulp quasi-monotonicity clause is stated (C11_atan_mono2_full) and carried by correspondence (exhaustive on [0,200000] raw with running maximum + stratified) only.", "analytic composition (Mathlib arctan identities, omega, nlinarith) + kernel enumeration of the polynomial kernel; correspondence"),
 }
 NA_DEFAULT = "check under construction in this round (the framework is built property by property); not a claim that the technique cannot apply"
 
